@@ -31,7 +31,7 @@ var commentAlpha = []string{"a", "/", "*", " ", "\n"}
 // line of its own, with comment recognition done by the spec.
 func EnumerateComments(ctx *core.Ctx, n int) ([]*CommentCase, error) {
 	cfg := fmt.Sprintf("CONSTANTS\n  Alpha <- AlphaRun\n  N = %d\n  Dev = {}\nINIT EnumInit\nNEXT Next\nINVARIANTS PrintComment ScanPartition\nCHECK_DEADLOCK FALSE\n", n)
-	res, err := ctx.RunTLC(core.TLCOpts{Module: "C15Run", Cfg: cfg, Files: map[string][]byte{"C15Run.tla": wrapperModule(commentAlpha)},
+	res, err := runTLC(ctx, core.TLCOpts{Module: "C15Run", Cfg: cfg, Files: map[string][]byte{"C15Run.tla": wrapperModule(commentAlpha)},
 		Workers: 1, Timeout: 8 * time.Minute, Label: "M2-enumerate-comments"})
 	if err != nil {
 		return nil, err
